@@ -26,6 +26,10 @@ func main() { hx.Main(extract, run) }
 
 const defaultWeight = 2147483647
 
+// tableSize: runes 0..tableSize-1 of every collation go into the regenerated fact file (Basic Latin .. Latin Extended-B,
+// IPA, spacing modifiers: all case pairs the per-table facts talk about).
+const tableSize = 768
+
 type coll struct {
 	c     sql.Collation
 	name  string
@@ -97,7 +101,7 @@ func leanStrings(xs []string) string {
 func extract(a hx.ExtractArgs) error {
 	var b strings.Builder
 	b.WriteString("/- GENERATED on every run by the harness extractor (c29 extract) from /repo's working tree. Do not edit.\n")
-	b.WriteString("   Sources: sql/types/strings.go, sql/collations.go (go/ast); weights returned by every implemented Collation.Sorter for runes 0..255 (compiled code) -/\n")
+	b.WriteString("   Sources: sql/types/strings.go, sql/collations.go (go/ast); weights returned by every implemented Collation.Sorter for runes 0..767 (compiled code); sql/expression/like.go (go/ast) -/\n")
 	b.WriteString("namespace Gms.Generated.C29\n\n")
 
 	s1, err := hx.ParseSrc(a.Repo, "sql/types/strings.go")
@@ -161,22 +165,60 @@ func extract(a hx.ExtractArgs) error {
 	fmt.Fprintf(&b, "def weightByteWrites : List String := %s\n", leanStrings(shifts))
 	fmt.Fprintf(&b, "def weightBinaryCase : String := %s\n\n", hx.LeanString(binCase))
 
+	// LIKE: the malformed-input tests of ConstructLikeMatcher / Match and the "negative sort order matches anything" test
+	s3, err := hx.ParseSrc(a.Repo, "sql/expression/like.go")
+	if err != nil {
+		return err
+	}
+	for _, fn := range [][2]string{{"", "ConstructLikeMatcher"}, {"LikeMatcher", "Match"}, {"LikeMatcher", "backtrack"}} {
+		fd, err := s3.Func(fn[0], fn[1])
+		if err != nil {
+			return err
+		}
+		var tests []string
+		ast.Inspect(fd.Body, func(n ast.Node) bool {
+			if is, ok := n.(*ast.IfStmt); ok && strings.Contains(s3.Text(is.Cond), "utf8.RuneError") {
+				tests = append(tests, s3.Text(is.Cond))
+			}
+			return true
+		})
+		if len(tests) == 0 {
+			return fmt.Errorf("%s: the malformed-string test was not found", fn[1])
+		}
+		fmt.Fprintf(&b, "def likeMalformedTests_%s : List String := %s\n", fn[1], leanStrings(tests))
+	}
+	rm, err := s3.Func("likeMatcherRune", "Match")
+	if err != nil {
+		return err
+	}
+	runeMatch := ""
+	ast.Inspect(rm.Body, func(n ast.Node) bool {
+		if is, ok := n.(*ast.IfStmt); ok && runeMatch == "" {
+			runeMatch = s3.Text(is.Cond)
+		}
+		return true
+	})
+	fmt.Fprintf(&b, "def likeRuneMatchTest : String := %s\n\n", hx.LeanString(runeMatch))
+
 	cs := collations()
 	if len(cs) == 0 {
 		return fmt.Errorf("no implemented collation found")
 	}
-	b.WriteString("structure Coll where\n  name : String\n  id : Nat\n  charset : String\n  ci : Bool\n  bin : Bool\n  caseSensitiveFlag : Bool\n  maxLen : Nat\n  ws : List Int\n\n")
+	// One natural number per collation: the int32 weights of the runes 0..tableSize-1, 32 bits each (two's complement),
+	// rune r in bits [32r, 32r+32) — a hex literal elaborates instantly and the kernel reads it with GMP arithmetic.
+	fmt.Fprintf(&b, "def tableSize : Nat := %d\n\n", tableSize)
+	b.WriteString("structure Coll where\n  name : String\n  id : Nat\n  charset : String\n  ci : Bool\n  bin : Bool\n  caseSensitiveFlag : Bool\n  maxLen : Nat\n  tbl : Nat\n\n")
 	var names []string
 	for _, k := range cs {
-		ws := make([]string, 256)
-		for r := 0; r < 256; r++ {
-			ws[r] = fmt.Sprint(k.c.Sorter(rune(r)))
+		var hexs strings.Builder
+		for r := tableSize - 1; r >= 0; r-- {
+			fmt.Fprintf(&hexs, "%08x", uint32(k.c.Sorter(rune(r))))
 		}
-		fmt.Fprintf(&b, "def ws_%d : List Int := [%s]\n", k.c.ID, strings.Join(ws, ","))
-		fmt.Fprintf(&b, "def c_%d : Coll := ⟨%s, %d, %s, %v, %v, %v, %d, ws_%d⟩\n", k.c.ID, hx.LeanString(k.name), k.c.ID, hx.LeanString(k.c.CharacterSet.Name()), k.ci, k.isBin, k.c.IsCaseSensitive, k.c.CharacterSet.MaxLength(), k.c.ID)
+		fmt.Fprintf(&b, "def t_%d : Nat := 0x%s\n", k.c.ID, hexs.String())
+		fmt.Fprintf(&b, "def c_%d : Coll := ⟨%s, %d, %s, %v, %v, %v, %d, t_%d⟩\n", k.c.ID, hx.LeanString(k.name), k.c.ID, hx.LeanString(k.c.CharacterSet.Name()), k.ci, k.isBin, k.c.IsCaseSensitive, k.c.CharacterSet.MaxLength(), k.c.ID)
 		names = append(names, fmt.Sprintf("c_%d", k.c.ID))
 	}
-	b.WriteString("\n/-- every collation with a Sorter and an encoder: flags and the weights of the runes 0..255 -/\ndef table : List Coll := [")
+	b.WriteString("\n/-- every collation with a Sorter and an encoder: flags and the weights of the runes 0..tableSize-1 -/\ndef table : List Coll := [")
 	b.WriteString(strings.Join(names, ", "))
 	b.WriteString("]\n\nend Gms.Generated.C29\n")
 	return os.WriteFile(a.Out, []byte(b.String()), 0o644)
